@@ -7,6 +7,7 @@ From Salsa.Core Require Import Model Spec.
 From Salsa.Core Require Import Dsl.
 From Salsa.Cycle Require Import Spec SpecProofs DslSpec DslProofs.
 From Salsa.Cycle Require Cert Examples.
+From Salsa.Cycle Require FreshInv FreshThm FreshExamples.
 
 (* The specification is well defined and is what the property names: [kleene] satisfies every
    equation, lies below every assignment that satisfies (even: is closed under) the equations,
@@ -103,3 +104,85 @@ Example C12_model_run :
   = [Salsa.Cycle.Model.COk 7; Salsa.Cycle.Model.COk 6; Salsa.Cycle.Model.COk 0;
      Salsa.Cycle.Model.COk 2; Salsa.Cycle.Model.COk 10].
 Proof. exact Examples.ex12_run. Qed.
+
+
+(* ---------------------------------------------------------------- the fresh revision (stage F1)
+   PROVED over the executable Cycle model, for all programs of the following class and all
+   snapshots: starting from the initial database (no memos), ANY sequence of Gets (any entry order,
+   any subset, repeats) returns the least fixpoint for every Get — hence never a panic and never
+   out-of-fuel — and the final state's settled memos pass the certificate [is_fixpoint_state].
+   Fuel: any [fuel >= length ns] (the recursion depth of fetch is bounded by the number of nodes)
+   and [nodes >= 1]; the fixpoint loop never needs more than 13 iterations, independently of the
+   number of nodes (stamps stay below 16, far from MAX_ITERATIONS = 200).
+   Class (restriction of this stage, [FreshInv.ring_ok_of] + [input_determined]): the call graph of
+   the snapshot is input-determined and layered by [lvl]; the only same-level call of a node goes
+   to [nxt] of it, [nxt] is injective and its edges are real calls; nodes with a same-level call
+   use Fixpoint (default or joining cycle_fn) with cycle_initial = 0.  So every strongly connected
+   component is a simple ring, entered at any member, no nested heads; rings at different levels
+   may call each other downwards; nodes off the rings may use any strategy (plain / no-cycle
+   families only occur acyclically).  Nested cycle heads are NOT covered by this stage. *)
+Theorem C12_fresh :
+  forall (prog : qkey -> body) (strat : N -> Salsa.Cycle.Model.strategy) (cinit : qkey -> val)
+         (iv : ikey -> val) (idur : ikey -> dur) (ns : list qkey)
+         (lvl : qkey -> nat) (nxt : qkey -> option qkey) (nodes fuel : nat) (qs : list qkey),
+  let sn := Cert.csnap_of (Salsa.Cycle.Model.cinit_db iv idur) in
+  monotone_prog prog sn -> fits8 prog sn -> input_determined prog sn ->
+  FreshInv.ring_ok_of prog strat sn ns lvl nxt -> (forall q, cinit q = 0) ->
+  (1 <= nodes)%nat -> (length ns <= fuel)%nat -> (forall q, In q qs -> In q ns) ->
+  exists s',
+    Salsa.Cycle.Model.crun_ops prog strat cinit nodes fuel (Salsa.Cycle.Model.cinit_db iv idur)
+      (map Salsa.Cycle.Model.COGet qs)
+      = (s', map (fun q => Salsa.Cycle.Model.COk (kleene prog sn ns q)) qs) /\
+    Cert.is_fixpoint_state prog ns s' = true.
+Proof. exact FreshThm.fresh_ring. Qed.
+Check C12_fresh :
+  forall (prog : qkey -> body) (strat : N -> Salsa.Cycle.Model.strategy) (cinit : qkey -> val)
+         (iv : ikey -> val) (idur : ikey -> dur) (ns : list qkey)
+         (lvl : qkey -> nat) (nxt : qkey -> option qkey) (nodes fuel : nat) (qs : list qkey),
+  let sn := Cert.csnap_of (Salsa.Cycle.Model.cinit_db iv idur) in
+  monotone_prog prog sn -> fits8 prog sn -> input_determined prog sn ->
+  FreshInv.ring_ok_of prog strat sn ns lvl nxt -> (forall q, cinit q = 0) ->
+  (1 <= nodes)%nat -> (length ns <= fuel)%nat -> (forall q, In q qs -> In q ns) ->
+  exists s',
+    Salsa.Cycle.Model.crun_ops prog strat cinit nodes fuel (Salsa.Cycle.Model.cinit_db iv idur)
+      (map Salsa.Cycle.Model.COGet qs)
+      = (s', map (fun q => Salsa.Cycle.Model.COk (kleene prog sn ns q)) qs) /\
+    Cert.is_fixpoint_state prog ns s' = true.
+Print Assumptions C12_fresh.
+
+(* NOT PROVED (kept visible): the same statement without the ring restriction — arbitrary
+   (nested) cycles among Fixpoint families.  Checked by the fuzzer (about 1.8M reads of random
+   monotone programs with nested cycles, 0 mismatches) and by [FreshExamples.exn_nested]. *)
+Definition C12_fresh_full_statement : Prop :=
+  forall (prog : qkey -> body) (strat : N -> Salsa.Cycle.Model.strategy) (cinit : qkey -> val)
+         (iv : ikey -> val) (idur : ikey -> dur) (ns : list qkey) (nodes fuel : nat) (qs : list qkey),
+  let sn := Cert.csnap_of (Salsa.Cycle.Model.cinit_db iv idur) in
+  monotone_prog prog sn -> fits8 prog sn -> closed_on prog sn ns ->
+  (forall q, cinit q = 0) ->
+  (forall fam, strat fam = Salsa.Cycle.Model.SFix \/ strat fam = Salsa.Cycle.Model.SFixJoin) ->
+  (length ns <= nodes)%nat -> (length ns <= fuel)%nat -> (8 * length ns < 200)%nat ->
+  (forall q, In q qs -> In q ns) ->
+  exists s',
+    Salsa.Cycle.Model.crun_ops prog strat cinit nodes fuel (Salsa.Cycle.Model.cinit_db iv idur)
+      (map Salsa.Cycle.Model.COGet qs)
+      = (s', map (fun q => Salsa.Cycle.Model.COk (kleene prog sn ns q)) qs) /\
+    Cert.is_fixpoint_state prog ns s' = true.
+
+(* Non-vacuity of C12_fresh: a 3-node Fixpoint ring over a 2-node joining ring over a plain leaf
+   satisfies every hypothesis, for every list of Gets; the 3-node ring entered at each member. *)
+Example C12_fresh_inhabited : forall (qs : list qkey), (forall q, In q qs -> In q FreshExamples.exf_ns) ->
+  let sn := Cert.csnap_of (Salsa.Cycle.Model.cinit_db FreshExamples.exf_iv (fun _ => 0)) in
+  exists s',
+    Salsa.Cycle.Model.crun_ops FreshExamples.exf_prog Examples.ex_strat FreshExamples.cinit0 6 6
+      (Salsa.Cycle.Model.cinit_db FreshExamples.exf_iv (fun _ => 0)) (map Salsa.Cycle.Model.COGet qs)
+      = (s', map (fun q => Salsa.Cycle.Model.COk (kleene FreshExamples.exf_prog sn FreshExamples.exf_ns q)) qs) /\
+    Cert.is_fixpoint_state FreshExamples.exf_prog FreshExamples.exf_ns s' = true.
+Proof. exact FreshExamples.exf_fresh. Qed.
+Example C12_fresh_enter_each :
+  FreshExamples.exf_outs [Salsa.Cycle.Model.COGet (1, 0); Salsa.Cycle.Model.COGet (1, 1); Salsa.Cycle.Model.COGet (1, 2)]
+    = [Salsa.Cycle.Model.COk 93; Salsa.Cycle.Model.COk 13; Salsa.Cycle.Model.COk 12] /\
+  FreshExamples.exf_outs [Salsa.Cycle.Model.COGet (1, 1); Salsa.Cycle.Model.COGet (1, 2); Salsa.Cycle.Model.COGet (1, 0)]
+    = [Salsa.Cycle.Model.COk 13; Salsa.Cycle.Model.COk 12; Salsa.Cycle.Model.COk 93] /\
+  FreshExamples.exf_outs [Salsa.Cycle.Model.COGet (1, 2); Salsa.Cycle.Model.COGet (1, 0); Salsa.Cycle.Model.COGet (1, 1)]
+    = [Salsa.Cycle.Model.COk 12; Salsa.Cycle.Model.COk 93; Salsa.Cycle.Model.COk 13].
+Proof. destruct FreshExamples.exf_enter_each as (H1 & H2 & H3 & _). now repeat split. Qed.
